@@ -1,6 +1,6 @@
 (* Extraction of the C18 executable model and of the specification functions (ExtrOcamlBasic only; N/Z/positive/nat
    stay inductive types).  coqc runs with cwd = /verif/coq, so the output lands in coq/extracted/. *)
 From Coq Require Import List NArith ZArith Extraction ExtrOcamlBasic.
-From Kenlm Require Import Gen.SpacesC18 C18.FilePieceModel C18.FilePieceSpec C18.ReadCompressedModel C18.TokenizeModel.
+From Kenlm Require Import Gen.SpacesC18 C18.FilePieceModel C18.FilePieceSpec C18.ReadCompressedModel C18.TokenizeModel C18.LineInputModel.
 Extraction Language OCaml.
-Extraction "extracted/c18_model.ml" transcript spec_run original repaired rc_open rc_read_all split_on tokens_skip_empty is_space.
+Extraction "extracted/c18_model.ml" transcript spec_run original repaired rc_open rc_read_all split_on tokens_skip_empty is_space line_input open_fd open_stream.
